@@ -7,7 +7,7 @@ reg(Check(
         "single goroutine per target; the callback registered with SetClient reads the leaf synchronously (C04 covers the concurrent subscriber)",
         "one clock reading per API call; the clock does not run backwards across metadata refreshes (Reset/UpdateMetadata), otherwise the refreshed counters depend on Go map iteration order",
         "index paths under meta/ (the cache's own bookkeeping) are projected out of feed and Query on both sides of the correspondence run (C15 covers them); the theorems include them",
-        "typed values restricted to string/int/uint/bool/bytes/json/empty",
+        "typed values and value.Equal are those of coq/Value/ValueModel.v (b19's model, every arm of the oneof; floats as IEEE-754 bit patterns)",
         "cache created without latency windows and server name",
     ],
     modelled=["cache/cache.go: Cache.GnmiUpdate, Target.GnmiUpdate, gnmiUpdate, gnmiRemove, toDeleteNotification (with the slice-capacity aliasing of the stored prefix), Reset, Remove, Add, Sync, Connect, ConnectError, UpdateMetadata/updateMeta/generateMetaUpdates, Query; value.Equal on scalars; metadata/metadata.go; ctree via CTreeModel; path.ToStrings/joinPrefixAndPath via PathModel"],
